@@ -193,6 +193,9 @@ def reify_attributes_f(g: 'Graph') -> 'Graph':
                        or is_var(result.triples, result._top, t[2])), label='no-attribute-left')
     ensures(implies(g._top is not None, result._top == g._top), label='top')
     ensures(g.triples == old(g).triples, label='argument-kept')
+    # one new node per attribute, each with a variable of its own (judged natively only)
+    ensures(len(result.variables()) == len(g.variables()) + len(g.attributes()), label='fresh-variables')
+    ensures(len(result.triples) == len(g.triples) + len(g.attributes()), label='one-node-per-attribute')
     # outer loop
     invariant(0, lambda: is_list(new_triples) and forall_idx(new_triples, lambda j, t: is_tuple(t) and len(t) == 3
                                                              and is_str(t[1]) and t[1].startswith(':')))
